@@ -37,12 +37,16 @@ Section PolyAux.
     match count with
     | O => Some vs
     | S c =>
-      let '(md, me, ml, il', iv') := scan_ext vs 0 (pinner P) processed (scan_start wrap, O, O, il, iv_id) in
+      let '(md, me0, ml, il', iv') := scan_ext vs 0 (pinner P) processed (scan_start wrap, O, O, il, iv_id) in
       match nth_error (pinner P) ml with
       | None => None
       | Some hole =>
+        match attach_index wrap P vs me0 hole iv' with
+        | Ok me =>
         merge_spec wrap P c (splice vs 0 me (walk_list wrap (vis_same_direction (lnormal (pouter P)) (lnormal hole)) (verts hole) iv'))
                    (processed ++ [il']) il' iv'
+        | _ => None
+        end
       end
     end.
   Definition closed_loop_spec (wrap : bool) (P : Poly K) : option (list V) :=
@@ -54,15 +58,19 @@ Section PolyAux.
     match count with
     | O => true
     | S c =>
-      let '(md, me, ml, il', iv') := scan_ext (verts ret_loop) 0 (pinner P) processed (scan_start wrap, O, O, il, iv_id) in
+      let '(md, me0, ml, il', iv') := scan_ext (verts ret_loop) 0 (pinner P) processed (scan_start wrap, O, O, il, iv_id) in
       match nth_error (pinner P) ml with
       | None => false
       | Some hole =>
         negb (Nat.eqb (llen hole) 0) &&
+        match attach_index wrap P (verts ret_loop) me0 hole iv' with
+        | Ok me =>
         match rebuild wrap (lnormal (pouter P)) (verts ret_loop) 0 me hole iv' loop_new with
         | Ok aux =>
           Nat.eqb (llen aux) (length (splice (verts ret_loop) 0 me (walk_list wrap (vis_same_direction (lnormal (pouter P)) (lnormal hole)) (verts hole) iv')))
           && merge_clean wrap P c aux (processed ++ [il']) il' iv'
+        | _ => false
+        end
         | _ => false
         end
       end
